@@ -23,7 +23,10 @@ RULE = (
     "object observed immediately before entry; None at the end), and in facet 'scopes' the observed forest equals the "
     "model (every message/action is a child of the scope it was created in; start_task always a new tree; context-less "
     "messages are their own task, and a destination sees no current action while one is delivered). Non-trivial: depth >= 2 with a non-`with` construct below top level, or an exception "
-    "crossing >= 2 scopes, or a re-entered ancestor. Distinct = canonical JSON of the case."
+    "crossing >= 2 scopes, or a re-entered ancestor. Facet after-finish (enumerated, 48 scenarios): context()/run() of an "
+    "action that has already logged its end message (finished inside the block or before): current_action() is still "
+    "it, messages / Action.log / child actions started there are still attributed to it, each child logs one start and "
+    "one end, the previous context returns. Distinct = canonical JSON of the case."
 )
 ASSUMPTIONS = [
     "re-entering `with action:` on the same object, non-LIFO exits, and entering/leaving in different contextvars contexts are outside the quantifier",
@@ -100,7 +103,106 @@ def raising_strategy():
     )
 
 
+def check_after_finish(case):
+    """
+    `context()` / `run()` of an action are used although the action has logged its end message already (finished
+    inside the block, or earlier): current_action() is still that action inside, what is started there is still
+    attributed to it (same task, level below the action's), every new action logs one start and one end, and the
+    previous context comes back afterwards.
+    """
+    from eliot import Logger, current_action, log_message, start_action
+    from eliot._output import Destinations
+    import contextvars
+
+    saved = Logger._destinations
+    fresh = Destinations()
+    Logger._destinations = fresh
+    msgs = []
+    fresh.add(lambda m: msgs.append(dict(m)))
+    problems = []
+
+    def scenario():
+        outer = start_action(action_type="c04:outer")
+        with outer:
+            a = start_action(action_type="c04:a")
+            if case["when"] == "before":
+                a.finish()
+
+            def inside():
+                if current_action() is not a:
+                    problems.append("inside %s of the action current_action() is %r" % (case["how"], current_action()))
+                if case["when"] == "inside":
+                    a.finish()
+                    if current_action() is not a:
+                        problems.append("finishing the action inside its own block changed current_action()")
+                for what in case["then"]:
+                    if what == "msg":
+                        log_message(message_type="c04:m")
+                    elif what == "alog":
+                        a.log(message_type="c04:m")
+                    else:
+                        with start_action(action_type="c04:child"):
+                            log_message(message_type="c04:inner")
+
+            if case["how"] == "context":
+                with a.context():
+                    inside()
+            else:
+                a.run(inside)
+            if current_action() is not outer:
+                problems.append("after the block current_action() is %r, not the enclosing action" % (current_action(),))
+        if current_action() is not None:
+            problems.append("current_action() is not None at the end")
+
+    try:
+        contextvars.copy_context().run(scenario)
+    finally:
+        Logger._destinations = saved
+    require(not problems, "context-not-restored", lambda: "; ".join(problems))
+    a_start = [m for m in msgs if m.get("action_type") == "c04:a" and m["action_status"] == "started"]
+    require(len(a_start) == 1, "harness", "action a did not start once")
+    uuid, prefix = a_start[0]["task_uuid"], a_start[0]["task_level"][:-1]
+    later = [m for m in msgs if m.get("message_type") in ("c04:m", "c04:inner") or m.get("action_type") == "c04:child"]
+    for m in later:
+        require(
+            m["task_uuid"] == uuid and m["task_level"][: len(prefix)] == prefix and len(m["task_level"]) > len(prefix),
+            "not-a-child",
+            lambda: "%s logged inside %s() of the (finished) action is at %s%r, not below the action at %s%r"
+            % (m.get("message_type") or m.get("action_type"), case["how"], m["task_uuid"][:8], m["task_level"], uuid[:8], prefix),
+        )
+    children = [m for m in msgs if m.get("action_type") == "c04:child"]
+    n_children = sum(1 for w in case["then"] if w == "child")
+    statuses = sorted(m["action_status"] for m in children)
+    require(
+        statuses == sorted(["started", "succeeded"] * n_children),
+        "start-end-count",
+        lambda: "%d child actions started under the finished action logged statuses %r" % (n_children, statuses),
+    )
+    levels = [(m["task_uuid"], tuple(m["task_level"])) for m in msgs]
+    require(len(set(levels)) == len(levels), "duplicate-level", "two messages share a level")
+    return {"then": len(case["then"])}
+
+
+def classify_after_finish(case, info):
+    return bool(case["then"]), ["construct:" + case["how"], "finished:" + case["when"]] + sorted(set("then:" + w for w in case["then"]))
+
+
+def after_finish_runner(mod, facet, tier, seed, shard, nshards, stats):
+    import itertools
+    from ..core import enumerate_cases
+
+    cases = []
+    for how in ("context", "run"):
+        for when in ("inside", "before"):
+            for n in (1, 2):
+                for then in itertools.product(("msg", "alog", "child"), repeat=n):
+                    cases.append({"how": how, "when": when, "then": list(then)})
+    stats.extra["enumerated_scenarios"] = len(cases)
+    enumerate_cases(mod, facet, cases, shard, nshards, stats, exhaustive=True)
+
+
 FACETS = [
     Facet("scopes", scopes_strategy, check_scopes, classify, quick=1500, thorough=40000),
     Facet("raising-logger", raising_strategy, check_raising_logger, classify, quick=800, thorough=20000),
+    Facet("after-finish", None, check_after_finish, classify_after_finish, quick=1, thorough=1, quick_shards=1, thorough_shards=1, runner=after_finish_runner),
 ]
